@@ -112,6 +112,7 @@ func GenDocSpec(t *simkit.Tape) DocSpec {
 		cfg := model.DrawHTMLConfig(t)
 		cfg.Doctype = 0
 		cfg.Soup = false
+		cfg.Huge = 0 // reverse-axis queries are quadratic in the number of siblings: 20000 siblings mean gigabytes
 		return DocSpec{Kind: "html", Bytes: model.GenHTML(t, cfg)}
 	}
 	cfg := model.DrawXMLConfig(t)
